@@ -1426,3 +1426,79 @@ func checkWaitForGraph(c *Ctx, runs []*runInfo) {
 	c.check(len(cyc) == 0, rule, "acyclic", "-", fmt.Sprintf("%d actors, wait-for edges form a DAG", len(actors)), "synchronous calls between actors form a cycle "+strings.Join(cyc, " → ")+": two loops can wait for each other forever")
 	c.floor(rule, 8, "hand-confirmed edges: controller→{_cache,_subscription,_watcher}, _watcher→_watchSession, _lister→_ticker, publisher→_subscription, filterSubscription→{_cache,_subscription}, monitor→{_cache,_subscription}")
 }
+
+// checkNotRunningErrors: every request API that returns an error reports
+// ErrNotRunning (possibly wrapped) exactly on the path where the actor's
+// stopping channel fired, and nil where the request was accepted.
+func checkNotRunningErrors(c *Ctx) {
+	rule := "T-SHAPE(ErrNotRunning)"
+	n := 0
+	for _, f := range c.P.SrcFuncs("") {
+		if f.Parent() != nil || f.Signature.Recv() == nil {
+			continue
+		}
+		res := f.Signature.Results()
+		if res.Len() == 0 {
+			continue
+		}
+		if nt, ok := res.At(res.Len() - 1).Type().(*types.Named); !ok || nt.Obj().Name() != "error" {
+			continue
+		}
+		// only functions with a request select
+		has := false
+		for _, b := range f.Blocks {
+			for _, in := range b.Instrs {
+				if s, ok := in.(*ssa.Select); ok && s.Blocking {
+					for _, st := range s.States {
+						if st.Dir == types.SendOnly {
+							has = true
+						}
+					}
+				}
+			}
+		}
+		if !has {
+			continue
+		}
+		n++
+		c.useFn(f)
+		ok, detail := true, ""
+		sawStop, sawSent := false, false
+		for _, pa := range pathsOf(c, f) {
+			if pa.End.Kind != "return" {
+				continue
+			}
+			arm := ""
+			for _, e := range pa.Effects {
+				if e.Kind == "select" && e.Blocking && e.Arm >= 0 {
+					st := e.Sel[e.Arm]
+					if st.Send != nil {
+						arm = "sent"
+					} else if st.Chan.K == "invoke" && st.Chan.S == "ShuttingDown" {
+						arm = "stopping"
+					}
+				}
+			}
+			last := pa.End.Results[len(pa.End.Results)-1]
+			isNotRunning := termContains(last, func(x *Term) bool { return (x.K == "load" || x.K == "global") && strings.Contains(x.Key(), "ErrNotRunning") })
+			switch arm {
+			case "stopping":
+				sawStop = true
+				if !isNotRunning {
+					ok, detail = false, "the stopping arm does not return ErrNotRunning"
+				}
+			case "sent":
+				sawSent = true
+				if isNotRunning {
+					ok, detail = false, "an accepted request returns ErrNotRunning"
+				}
+			}
+		}
+		if !sawStop || !sawSent {
+			ok, detail = false, "request select without both a send arm and a ShuttingDown() arm"
+		}
+		c.check(ok, rule, fnName(f)+"/stopping→ErrNotRunning", c.P.fnPos(f), "", fnName(f)+": "+detail+" (a caller racing with shutdown must get ErrNotRunning or a result, never block or a misleading success)")
+	}
+	c.floor(rule, 9, "cache x5 (sync, update, refilter, List, Get), publisher.Subscribe, filterSubscription.Refilter, _watcher.reset, _subscription.send")
+	_ = n
+}
